@@ -445,4 +445,97 @@ def runH (s : St) : List Op → St
   | [] => s
   | op :: r => runH (stepH s op).1 r
 
+
+/-! ### arrays handed in by the caller: locations shared between slots
+
+`append_field`, `__setitem__` and the constructor with `copy=False` store the caller's ndarray object itself.
+When that array already is a column — of the same container, of another live container, or the caller keeps a
+reference — two slots are bound to one location.  Which operations *write through* a location (`set_selection`:
+`self._data_fields[fname][indices] = …`) and which *rebind* their slots to newly allocated arrays (everything
+else: `np.append`, fancy indexing, `astype`, dict manipulation) then becomes observable. -/
+
+inductive XOp
+  | base (op : Op)
+  | appendFieldFrom (c : Nat) (n : Name) (d : Nat) (m : Name)   -- conts[c].append_field(n, conts[d][m])
+  | setItemFrom (c : Nat) (n : Name) (d : Nat) (m : Name)       -- conts[c][n] = conts[d][m]
+  | newShared (d : Nat) (m : Name)   -- DataFieldRecordArray({m: conts[d][m]}, copy=False); also: the caller keeps conts[d][m]
+  deriving Repr
+
+/-- the only operation that writes into existing arrays -/
+def XOp.writesThrough : XOp → Bool
+  | .base (.setSel _ _ _) => true
+  | _ => false
+
+/-- `append_field(n, arr)` with `arr` = the array at location `l` -/
+def bindNew (s : St) (c : Nat) (cont : Cont) (n : Name) (l : Loc) : St × Except Err Out :=
+  if dhas cont.fields n then (s, .error .key)
+  else match s.heap[l]? with
+    | none => (s, .error .cont)
+    | some col =>
+      if col.vals.length ≠ cont.len then (s, .error .value)
+      else (⟨s.heap, s.conts.set c { cont with fields := cont.fields ++ [(n, l)], names := cont.names ++ [n] }⟩, .ok .unit)
+
+def stepX (s : St) : XOp → St × Except Err Out
+  | .base op => stepH s op
+  | .appendFieldFrom c n d m =>
+    match s.conts[c]?, s.conts[d]? with
+    | some cont, some src =>
+      match src.fields.lookup m with
+      | none => (s, .error .key)
+      | some l => bindNew s c cont n l
+    | _, _ => (s, .error .cont)
+  | .setItemFrom c n d m =>
+    match s.conts[c]?, s.conts[d]? with
+    | some cont, some src =>
+      match src.fields.lookup m with
+      | none => (s, .error .key)
+      | some l =>
+        if dhas cont.fields n then
+          match s.heap[l]? with
+          | none => (s, .error .cont)
+          | some col =>
+            if col.vals.length ≠ cont.len then (s, .error .value)
+            else (⟨s.heap, s.conts.set c { cont with fields := dset cont.fields n l }⟩, .ok .unit)
+        else bindNew s c cont n l
+    | _, _ => (s, .error .cont)
+  | .newShared d m =>
+    match s.conts[d]? with
+    | none => (s, .error .cont)
+    | some src =>
+      match src.fields.lookup m with
+      | none => (s, .error .key)
+      | some l =>
+        match s.heap[l]? with
+        | none => (s, .error .cont)
+        | some col => (⟨s.heap, s.conts ++ [⟨[(m, l)], [m], col.vals.length, none⟩]⟩, .ok (.cont s.conts.length))
+
+def runX (s : St) : List XOp → St
+  | [] => s
+  | op :: r => runX (stepX s op).1 r
+
+/-- plain-table reading of the same operations (the handed-in array is taken by value) -/
+def stepTX (ts : List Table) : XOp → List Table × Except Err Out
+  | .base op => stepT ts op
+  | .appendFieldFrom c n d m =>
+    match ts[c]?, ts[d]? with
+    | some _, some src =>
+      match src.cols.lookup m with
+      | none => (ts, .error .key)
+      | some col => stepT ts (.appendField c n col)
+    | _, _ => (ts, .error .cont)
+  | .setItemFrom c n d m =>
+    match ts[c]?, ts[d]? with
+    | some _, some src =>
+      match src.cols.lookup m with
+      | none => (ts, .error .key)
+      | some col => stepT ts (.setItem c n col)
+    | _, _ => (ts, .error .cont)
+  | .newShared d m =>
+    match ts[d]? with
+    | none => (ts, .error .cont)
+    | some src =>
+      match src.cols.lookup m with
+      | none => (ts, .error .key)
+      | some col => stepT ts (.new [(m, col)])
+
 end Store
